@@ -374,6 +374,114 @@ def case_kernel_grad_list(**p):
   return case
 
 
+def _collapsed_layer(p):
+  from tensorflow_lattice.python import pwl_calibration_layer as PL
+  import tensorflow as tf
+  layer = PL.PWLCalibration(input_keypoints=[-1.0, 0.0, 1.0, 2.5, 4.0][:p['nk']], units=1, input_keypoints_type='learned_interior')
+  layer(tf.zeros([1, 1]))
+  return layer
+
+
+def case_kernel_grad_pwl_collapsed(**p):
+  """d out / d kernel of a PWLCalibration with learned keypoints one of whose softmax shares underflowed to exactly 0 (a piece
+  of length 0, i.e. a jump): the reference weights are written from the definition (1 for a piece wholly left of the input, 0
+  for one wholly right of it, the fraction covered otherwise), not taken from the code under test."""
+  import tensorflow as tf
+  from tensorflow_lattice.python import pwl_calibration_layer as PL, pwl_calibration_lib as pl
+  case = Case(PROP, p['name'], {k: v for k, v in p.items() if k != 'name'})
+  case.encoded(PL.PWLCalibration.call, PL.PWLCalibration.keypoints_inputs, pl.compute_interpolation_weights)
+  nk, zi = p['nk'], p['zero']
+  layer = _collapsed_layer(p)
+
+  def g(x):
+    with tf.GradientTape() as t:
+      y = tf.reshape(layer(x), [-1])[0]
+    return t.gradient(y, layer.kernel), layer.keypoints_inputs()
+  tr = Traced(g, [tf.TensorSpec([1, 1], tf.float32)], name='pwl.kernel_grad(learned keypoints)')
+  done, mism = tr.validate(np.random.default_rng(0), n=2, gen=lambda rng, i, shp, trial: rng.integers(-6, 30, size=shp) / 8.0 + 0.03125,
+                           var_shapes={layer.kernel.name: lambda r, t: core.dyadic(r, [nk, 1], t)})
+  case.meta.update(validation_points=done, validation_mismatch=mism, nodes=tr.n_nodes)
+  tmo = p.get('timeout', 60)
+  replay = dict(fn='kgrad-collapsed', params={k: v for k, v in p.items() if k != 'name'})
+  state = dict(n=0)
+
+  def build(extra, leaf):
+    c = sym.new_ctx()
+    c.memo['ieee_div0'] = True
+    c.memo['softmax_zero'] = (zi,)
+    c.case_assumptions = list(extra)
+    K = sym.symbolic('k', (nk, 1))
+    x = sym.symbolic('x', (1, 1))
+    logits = sym.symbolic('lg', (1, nk - 1))
+    tag = '[leaf=%s]' % (leaf or 'root')
+    state['n'] += 1
+
+    def shares():
+      rows = [vs for (row, vs) in c.softmax.values()]
+      return np.array(rows[0], dtype=object).reshape(1, -1) if rows else np.zeros((1, 0), dtype=object)
+    wit = dict(x=x, k=K)
+    try:
+      grads, kin = tr.sym_run(x, var_values={layer.kernel.ref(): K, layer.interpolation_logits.ref(): logits})
+    except sym.Undefined as e:
+      wit['softmax'] = shares()
+      case.solve('gradient-is-a-number-with-collapsed-piece' + tag, z3.BoolVal(True), witness=wit, timeout=tmo,
+                 sig=dict(query='collapsed-nan', why=str(e)[:40]), replay=replay)
+      return
+    wit['softmax'] = shares()
+    case.meta.update(ops=tr.ops_seen, stubs=sym.ctx().stubs)
+    xu = x[0, 0]
+    kps = [kin[i, 0] for i in range(nk)]
+    # differentiable points: not on a keypoint
+    interior = [sym.b(sym.NE(xu, k_)) for k_ in kps]
+    bad = [sym.NE(grads[0, 0], 1)]
+    for i in range(nk - 1):
+      gi = grads[i + 1, 0]
+      left, right = kps[i], kps[i + 1]
+      if i == zi:
+        ref = sym.s_ite(sym.s_cmp('gt', xu, left), 1, 0)
+      else:
+        frac = sym.s_div(sym.s_sub(xu, left), sym.s_sub(right, left))
+        ref = sym.s_ite(sym.s_cmp('ge', xu, right), 1, sym.s_ite(sym.s_cmp('le', xu, left), 0, frac))
+      bad.append(sym.NE(gi, ref))
+    case.solve('kernel-gradient-is-interpolation-weights-with-collapsed-piece' + tag, core.any_of(bad), assumptions=interior,
+               witness=wit, timeout=tmo, sig=dict(query='kernel-grad-collapsed'), replay=replay)
+    if state['n'] == 1 or leaf:
+      case.solve('twin:leaf-reachable' + tag, z3.BoolVal(True), expect='sat', kind='twin', timeout=30)
+  core.split_run(build)
+  return case
+
+
+def _replay_collapsed(r, p, w):
+  import tensorflow as tf
+  nk, zi = p['nk'], p['zero']
+  layer = _collapsed_layer(p)
+  layer.kernel.assign(core.witness_np(w['k']).astype(np.float32))
+  sm = core.witness_np(w['softmax']).astype(np.float64)
+  lg = np.where(sm > 0, np.log(np.where(sm > 0, sm, 1.0)), 0.0)
+  lg[0, zi] = float(np.min(lg[0, [i for i in range(nk - 1) if i != zi]])) - 200.0
+  layer.interpolation_logits.assign(lg.astype(np.float32).reshape(layer.interpolation_logits.shape))
+  kin = layer.keypoints_inputs().numpy().astype(np.float64)[:, 0]
+  x = float(core.witness_np(w['x'])[0, 0])
+  det = dict(x=x, kin=kin.tolist(), logits=lg.tolist())
+  if kin[zi] != kin[zi + 1]:
+    return dict(reproduced=False, detail=dict(det, note='softmax share did not underflow on the real code'))
+  if np.min(np.abs(kin - x)) <= 1e-4 * max(1.0, abs(x)):
+    return dict(reproduced=False, detail=dict(det, note='input too close to a keypoint to replay in float32'))
+  with tf.GradientTape() as t:
+    y = tf.reshape(layer(tf.constant([[x]], tf.float32)), [-1])[0]
+  grad = t.gradient(y, layer.kernel).numpy().astype(np.float64)[:, 0]
+  ref = [1.0]
+  for i in range(nk - 1):
+    if kin[i + 1] <= x:
+      ref.append(1.0)
+    elif x <= kin[i]:
+      ref.append(0.0)
+    else:
+      ref.append((x - kin[i]) / (kin[i + 1] - kin[i]))
+  d = float(np.max(np.abs(grad - np.array(ref)))) if np.all(np.isfinite(grad)) else float('inf')
+  return dict(reproduced=bool(d > 1e-4), detail=dict(det, grad=grad.tolist(), reference=ref))
+
+
 def _kgrad_replay(m, tr, x, K, layer, kind, u0, kshape, p):
   xn = core.model_np(m, x) if kind != 'categorical' else np.asarray(x, dtype=object).astype(np.int64)
   grads, W = tr.tf_run(xn, var_values={layer.kernel.ref(): core.model_np(m, K)})
@@ -394,6 +502,8 @@ def replay(r):
   rp = r['replay']
   p = rp['params']
   w = r['witness']
+  if rp['fn'] == 'kgrad-collapsed':
+    return _replay_collapsed(r, p, w)
   if rp['fn'] == 'reduce_prod':
     from tensorflow_lattice.python import kronecker_factored_lattice_lib as kl
     x = core.witness_np(w['x']).astype(np.float32)
@@ -470,6 +580,9 @@ def cases(tier, seed):
   add('case_kernel_grad', layer='pwl', nk=3, units=1)
   add('case_kernel_grad', layer='pwl', nk=4, units=2, unit=1)
   add('case_kernel_grad', layer='categorical', buckets=3, units=2, unit=1)
+  add('case_kernel_grad_pwl_collapsed', nk=4, zero=1)
+  add('case_kernel_grad_pwl_collapsed', nk=3, zero=0)
+  add('case_kernel_grad_pwl_collapsed', nk=4, zero=2)
   if tier == 'thorough':
     add('case_reduce_prod', shape=[1, 5], axis=-1, required=False, timeout=600, max_zeros=3)
     add('case_reduce_prod', shape=[2, 4, 2], axis=1, required=False, timeout=600)
